@@ -41,7 +41,7 @@ inductive Msg where
   | openOk (idLow : Bool)   -- valid OPEN; `idLow`: its BGP identifier is below ours
   | openSem (e : OpenSem)
   | keepalive | update | refresh | notification
-  | operational             -- type 6, capability not negotiated
+  | operational             -- type 6 (capability not negotiated): decodes, no handler in `_main`
   | bad (f : Fault)
 deriving DecidableEq, Repr
 
@@ -273,7 +273,6 @@ def mainTail (s : State) : R :=
 def mainIter (m : Option Msg) (s : State) : R :=
   match m with
   | some (.bad f) => onNotify (raised f).1 (raised f).2 s
-  | some .operational => onNotify 1 0 s
   | some .notification => onNotification s
   | _ =>
     if s.cfg.hold0 ∧ m = some .keepalive ∧ s.kaSeen then onNotify 2 6 s
@@ -307,7 +306,6 @@ def deliver (m : Msg) (s : State) : R :=
   | .awaitOpen c =>
     match m with
     | .bad f => onNotify (raised f).1 (raised f).2 s
-    | .operational => onNotify 1 0 s
     | .notification => onNotification s
     | .openOk low =>
       fsmTo .openconfirm (markConn (fun (k : Conn) => { k with idLow := low, openRecv := true }) s) ⊳ sendKa c
@@ -316,7 +314,6 @@ def deliver (m : Msg) (s : State) : R :=
   | .awaitKa c =>
     match m with
     | .bad f => onNotify (raised f).1 (raised f).2 s
-    | .operational => onNotify 1 0 s
     | .notification => onNotification s
     | .keepalive => fsmTo .established (markConn (fun (k : Conn) => { k with kaRecv := true }) s) ⊳ enterMain c
     | _ => onNotify 5 2 s
